@@ -7,6 +7,14 @@ of `tools/props/C18.py`.  `v.sound` = the source protects bound indices in `subs
 (0f745db) and collects field values without recursion (1c47dce); the harness infers `v` from
 the real code.  `eval I e ρ` is the value of `e` in ℚ for EVERY environment `ρ` and EVERY
 interpretation `I` of uninterpreted function applications.
+
+Pool VALUES are terms (numbers, symbols, sums, outer summation indices): they are arguments of the
+pool sum, so `free_symbols`, `subs` and `xreplace` reach them, and the value of a pool sum is the
+sum over the product of the pool values EVALUATED IN THE ENVIRONMENT (for a nested sum: in the
+environment extended by the outer indices).  `wfSums e` (decidable; `Model/Expr.lean`) is the
+standing hypothesis: every pool sum inside `e` has pairwise distinct index symbols, non-empty
+pools, pool values without pool sums that mention neither an index of the same sum nor a symbol
+bound inside its summand.  What it excludes is run on the real code and recorded.
 Only property theorems and non-vacuity examples live here.
 -/
 import Ampverif.Lemmas.C18Depth
@@ -16,33 +24,36 @@ open Ampverif.Model Ampverif.Lemmas.C18
 
 /-! ### 1. evaluation = explicit sum over the cartesian product of the pools -/
 
-/-- `PoolSum.evaluate()` (cartesian product, sequential `subs` of the index values, `Add`) has the
-value of the nested finite sum `Σ_{i₁∈pool₁} … Σ_{iₙ∈poolₙ} summand`, for every summand (nested
-pool sums included), any number of indices, pools with duplicates and singletons. Hypothesis:
-the index symbols are pairwise distinct. -/
+/-- `PoolSum.evaluate()` (cartesian product, sequential `subs` of the pool values for the indices,
+`Add`) has the value of the nested finite sum `Σ_{i₁∈⟦pool₁⟧ρ} … Σ_{iₙ∈⟦poolₙ⟧ρ} summand`, for every
+summand (nested pool sums included, also ones whose pools mention `i₁…iₙ`), any number of
+indices, pools with duplicates, singletons, symbols and compound terms. -/
 theorem evaluate_denotes (I : Interp) (v : Variant) (hv : v.sound) (b : Expr) (ixs : List Binder)
-    (hnd : (names ixs).Nodup) (ρ : Env) :
-    eval I (evaluate v (.psum b ixs)) ρ = evalSum ixs ρ (fun ρ' => eval I b ρ') := by
+    (hw : wfSums (.psum b ixs) = true) (ρ : Env) :
+    eval I (evaluate v (.psum b ixs)) ρ
+      = evalSum (evalBinders I ixs ρ) ρ (fun ρ' => eval I b ρ') := by
+  obtain ⟨hnd, _, hnp, hown, hwb⟩ := wfSums_psum hw
   simp only [evaluate, eval]
   rw [dictOf_nodup ixs hnd, evalList_eq_map, List.map_map]
-  exact sum_evaluate_terms I v hv ixs b ρ hnd
+  exact sum_evaluate_terms I v hv ixs b ρ hnd hnp hown hwb
 
-/-- … which is the flat sum over `itertools.product(*pools)` of the summand evaluated with the
-indices bound to the combination. -/
+/-- … which is the flat sum over `itertools.product(*pools)` — the pool VALUES evaluated in the
+environment — of the summand evaluated with the indices bound to the combination. -/
 theorem evaluate_is_sum_over_product (I : Interp) (v : Variant) (hv : v.sound) (b : Expr)
-    (ixs : List Binder) (hnd : (names ixs).Nodup) (ρ : Env) :
+    (ixs : List Binder) (hw : wfSums (.psum b ixs) = true) (ρ : Env) :
     eval I (evaluate v (.psum b ixs)) ρ
-      = ((assignments ixs).map (fun c => eval I b (updAll ρ c))).sum := by
-  rw [evaluate_denotes I v hv b ixs hnd ρ, evalSum_flat]
+      = ((assignments (evalBinders I ixs ρ)).map (fun c => eval I b (updAll ρ c))).sum := by
+  rw [evaluate_denotes I v hv b ixs hw ρ, evalSum_flat]
 
 /-- `evaluate` does not change the value of the pool sum. -/
 theorem evaluate_preserves_value (I : Interp) (v : Variant) (hv : v.sound) (b : Expr)
-    (ixs : List Binder) (hnd : (names ixs).Nodup) (ρ : Env) :
+    (ixs : List Binder) (hw : wfSums (.psum b ixs) = true) (ρ : Env) :
     eval I (evaluate v (.psum b ixs)) ρ = eval I (.psum b ixs) ρ := by
-  rw [evaluate_denotes I v hv b ixs hnd ρ]; simp [eval]
+  rw [evaluate_denotes I v hv b ixs hw ρ]; simp [eval]
 
 /-- `doit()` (deep: pool sums at any nesting depth, inside sums, products, powers and function
-arguments) does not change the value, for every amount of recursion fuel. -/
+arguments; inner pools that mention outer indices) does not change the value, for every amount
+of recursion fuel. -/
 theorem doit_preserves_value (I : Interp) (v : Variant) (hv : v.sound) :
     ∀ (n : Nat) (e : Expr) (ρ : Env), wfSums e = true → eval I (doit v n e) ρ = eval I e ρ := by
   intro n
@@ -53,33 +64,46 @@ theorem doit_preserves_value (I : Interp) (v : Variant) (hv : v.sound) :
     simp only [doit]
     apply eval_doitPass I v hv (doit v n) ih _ e ρ h
     intro b ixs ρ' hw
-    have hnd : (names ixs).Nodup := by
-      simp only [wfSums, Bool.and_eq_true, decide_eq_true_eq] at hw; exact hw.1.1
-    exact evaluate_preserves_value I v hv b ixs hnd ρ'
+    exact evaluate_preserves_value I v hv b ixs hw ρ'
+
+/-- a directly nested sum whose INNER pools mention the OUTER indices: `doit` has the value of
+the iterated sum in which the inner pool values are evaluated with the outer indices bound. -/
+theorem doit_nested_dependent_pools (I : Interp) (v : Variant) (hv : v.sound) (n : Nat) (g : Expr)
+    (inner outer : List Binder) (hw : wfSums (.psum (.psum g inner) outer) = true) (ρ : Env) :
+    eval I (doit v n (.psum (.psum g inner) outer)) ρ
+      = evalSum (evalBinders I outer ρ) ρ
+          (fun ρ' => evalSum (evalBinders I inner ρ') ρ' (fun ρ'' => eval I g ρ'')) := by
+  rw [doit_preserves_value I v hv n _ ρ hw]
+  simp only [eval]
 
 /-- …and with fuel ≥ nesting depth the result is explicit: no pool sum is left anywhere. -/
 theorem doit_leaves_no_pool_sum (v : Variant) (hv : v.sound) :
-    ∀ (n : Nat) (e : Expr), psumDepth e ≤ n → psumDepth (doit v n e) = 0 := by
-  intro n
-  induction n with
-  | zero => intro e h; simpa [doit] using h
-  | succ n ih =>
-    intro e h
-    simp only [doit]
-    exact psumDepth_doitPass v hv (doit v n) n ih e h
+    ∀ (n : Nat) (e : Expr), wfSums e = true → psumDepth e ≤ n → noPsum (doit v n e) = true := by
+  have key : ∀ (n : Nat) (e : Expr), wfSums e = true → psumDepth e ≤ n → psumDepth (doit v n e) = 0 := by
+    intro n
+    induction n with
+    | zero => intro e _ h; simpa [doit] using h
+    | succ n ih =>
+      intro e hw h
+      simp only [doit]
+      exact psumDepth_doitPass v hv (doit v n) n ih e hw h
+  intro n e hw h
+  exact noPsum_of_psumDepth_zero _ (key n e hw h)
 
 /-! ### 2. free symbols -/
 
-/-- `free_symbols` of a pool sum = free symbols of the summand minus the indices. -/
+/-- `free_symbols` of a pool sum = free symbols of the summand AND of the pool values, minus the
+indices (`super().free_symbols` is the union over all arguments). -/
 theorem free_symbols (b : Expr) (ixs : List Binder) (s : Sym) :
-    s ∈ free (.psum b ixs) ↔ s ∈ free b ∧ s ∉ names ixs := by
-  simp [free, List.mem_filter]
+    s ∈ free (.psum b ixs) ↔ (s ∈ free b ∨ s ∈ freeBinders ixs) ∧ s ∉ names ixs := by
+  simp [free, List.mem_filter, or_and_right]
 
 /-- …and that is semantically right: the value of any term depends on its free symbols only
-(in particular never on the value an environment gives to a summation index). -/
-theorem value_depends_on_free_symbols_only (I : Interp) (e : Expr) (ρ ρ' : Env)
+(in particular never on the value an environment gives to a summation index, but it does depend
+on a symbol that occurs only in a pool). -/
+theorem value_depends_on_free_symbols_only (I : Interp) (e : Expr) (hw : wfSums e = true) (ρ ρ' : Env)
     (h : ∀ s ∈ free e, ρ s = ρ' s) : eval I e ρ = eval I e ρ' :=
-  eval_agree I e ρ ρ' h
+  eval_agree I e ρ ρ' hw h
 
 /-! ### 3. cleanup -/
 
@@ -89,26 +113,34 @@ theorem cleanup_value (I : Interp) (v : Variant) (hv : v.sound) (b : Expr) (ixs 
     (hw : wfSums (.psum b ixs) = true) (ρ : Env) :
     eval I (.psum b ixs) ρ
       = (cleanupMultiplicity (.psum b ixs) : Q) * eval I (cleanup v (.psum b ixs)) ρ := by
-  have hnd : (names ixs).Nodup := by
-    simp only [wfSums, Bool.and_eq_true, decide_eq_true_eq] at hw; exact hw.1.1
-  have hne : ∀ p ∈ ixs, p.2 ≠ [] := by
-    simp only [wfSums, Bool.and_eq_true, List.all_eq_true] at hw
-    intro p hp h
-    have := hw.1.2 p hp
-    simp [h] at this
+  obtain ⟨hnd, hne, hnp, hown, hwb⟩ := wfSums_psum hw
   have key := evalSum_cleanup (free b) (fun ρ' => eval I b ρ')
-    (fun ρ1 ρ2 h => eval_agree I b ρ1 ρ2 h) ixs ρ hnd hne
+    (fun ρ1 ρ2 h => eval_agree I b ρ1 ρ2 hwb h) (evalBinders I ixs ρ) ρ
+    (by rw [names_evalBinders]; exact hnd) (evalBinders_nonempty I ρ ixs hne)
   simp only [eval, cleanupMultiplicity, cleanup]
-  rw [key]
+  rw [key, cleanupMult_evalBinders, cleanupKept_evalBinders, cleanupSingles_evalBinders, evalPairs_reverse]
   congr 1
+  -- the inserted values are pool values: pool-sum-free, no index of this sum, nothing bound in `b`
+  have hσ : ∀ p ∈ (cleanupSingles (free b) ixs).reverse,
+      wfSums p.2 = true ∧ ∀ s ∈ syms p.2, s ∉ names ixs ∧ s ∉ bound b := by
+    intro p hp
+    have := cleanupSingles_vals (free b) ixs hnp p (List.mem_reverse.mp hp)
+    exact ⟨wfSums_of_noPsum p.2 this.1, fun s hs => hown s (this.2 s hs)⟩
   by_cases hk : (cleanupKept (free b) ixs).isEmpty = true
   · have : cleanupKept (free b) ixs = [] := by simpa using hk
-    simp only [this, List.isEmpty_nil, if_true, evalSum]
-    rw [eval_xreplace_lit I v hv]
-  · simp only [hk, eval]
-    apply evalSum_congr
-    intro ρ'
-    rw [eval_xreplace_lit I v hv]
+    simp only [this, List.isEmpty_nil, if_true, evalSum, evalBinders]
+    rw [eval_xreplace I v hv b _ ρ hwb (fun p hp => ⟨(hσ p hp).1, fun s hs => ((hσ p hp).2 s hs).2⟩)]
+  · simp only [hk]
+    apply evalSum_congr_agree
+    intro ρ' hρ'
+    rw [eval_xreplace I v hv b _ ρ' hwb (fun p hp => ⟨(hσ p hp).1, fun s hs => ((hσ p hp).2 s hs).2⟩)]
+    rw [evalPairs_congr I _ ρ ρ']
+    intro p hp
+    apply eval_agree I p.2 ρ' ρ (hσ p hp).1
+    intro s hs
+    apply hρ' s
+    rw [names_evalBinders]
+    exact not_mem_names_kept (free b) ixs s ((hσ p hp).2 s (mem_syms_of_mem_free p.2 s hs)).1
 
 /-- `cleanup()` never changes the value PROVIDED every index that does not occur in the summand
 has exactly one value. (Without the proviso the clause fails on the real code:
@@ -123,21 +155,49 @@ theorem cleanup_preserves_value (I : Interp) (v : Variant) (hv : v.sound) (b : E
 /-! ### 4. substitution laws -/
 
 /-- Substituting a symbol that is not an index by a term that mentions no index commutes with
-evaluation — as an equality of terms, hence of values. -/
+evaluation — as an equality of terms, hence of values — ALSO when the symbol occurs in a pool
+(or only in a pool): `subs` rewrites the pool values, `evaluate` inserts the rewritten values. -/
 theorem subs_free_commutes_with_evaluate (v : Variant) (hv : v.sound) (x : Sym) (a b : Expr)
-    (ixs : List Binder) (hnd : (names ixs).Nodup) (hx : x ∉ names ixs)
+    (ixs : List Binder) (hw : wfSums (.psum b ixs) = true) (hx : x ∉ names ixs)
     (ha : ∀ i ∈ names ixs, i ∉ syms a) :
     evaluate v (subst1 v x a (.psum b ixs)) = subst1 v x a (evaluate v (.psum b ixs)) := by
+  obtain ⟨hnd, _, hnp, hown, _⟩ := wfSums_psum hw
   rw [subst1_psum_not_mem v hv x a b ixs hx]
-  simp only [evaluate, subst1, dictOf_nodup ixs hnd]
-  rw [subst1List_map]
+  simp only [evaluate, subst1]
+  rw [dictOf_nodup ixs hnd, dictOf_nodup _ (by rw [names_subst1Binders]; exact hnd),
+    assignments_subst1Binders, List.map_map, subst1List_map]
   congr 1
   apply List.map_congr_left
   intro c hc
+  simp only [Function.comp]
   apply substSeq_comm v hv x a c b
   intro p hp
   have hm := assignments_keys ixs c hc p hp
-  exact ⟨fun h => hx (h ▸ hm), ha _ hm⟩
+  have hv' := assignments_vals ixs hnp c hc p hp
+  exact ⟨fun h => hx (h ▸ hm), ha _ hm, hv'.1, fun hxb hxs => (hown x (hv'.2 x hxs)).2 hxb⟩
+
+/-- `subs(x, a)` is the update `x ↦ ⟦a⟧ρ` of the environment, for every term — nested pool sums,
+`x` in summands, in pools, in both or nowhere — provided `a` mentions no bound symbol. -/
+theorem subs_is_environment_update (I : Interp) (v : Variant) (hv : v.sound) (x : Sym) (a e : Expr)
+    (ha : wfSums a = true) (hw : wfSums e = true) (hc : ∀ s ∈ syms a, s ∉ bound e) (ρ : Env) :
+    eval I (subst1 v x a e) ρ = eval I e (upd ρ x (eval I a ρ)) :=
+  eval_subst1 I v hv x a ha e ρ hw hc
+
+/-- …hence substituting and then unfolding has the value of unfolding in the updated environment
+(= unfolding and then substituting), whatever the fuel. -/
+theorem subs_commutes_with_doit_value (I : Interp) (v : Variant) (hv : v.sound) (x : Sym) (a e : Expr)
+    (ha : noPsum a = true) (hw : wfSums e = true) (hc : ∀ s ∈ syms a, s ∉ bound e) (n : Nat) (ρ : Env) :
+    eval I (doit v n (subst1 v x a e)) ρ = eval I (doit v n e) (upd ρ x (eval I a ρ)) := by
+  rw [doit_preserves_value I v hv n _ ρ (wfSums_subst1 v hv x a ha e hw hc),
+    doit_preserves_value I v hv n e _ hw]
+  exact eval_subst1 I v hv x a (wfSums_of_noPsum a ha) e ρ hw hc
+
+/-- `xreplace(σ)` is the simultaneous update of the environment (pools included). -/
+theorem xreplace_is_simultaneous_update (I : Interp) (v : Variant) (hv : v.sound) (e : Expr)
+    (σ : List (Sym × Expr)) (hw : wfSums e = true)
+    (hσ : ∀ p ∈ σ, wfSums p.2 = true ∧ ∀ s ∈ syms p.2, s ∉ bound e) (ρ : Env) :
+    eval I (xreplace v e σ) ρ = eval I e (qEnv (evalPairs I σ ρ) ρ) :=
+  eval_xreplace I v hv e σ ρ hw hσ
 
 /-- A substitution for a summation index leaves the sum unchanged (`subs`). -/
 theorem subs_index_is_identity (v : Variant) (hv : v.sound) (x : Sym) (a b : Expr)
@@ -153,15 +213,17 @@ theorem xreplace_index_is_identity (v : Variant) (hv : v.sound) (σ : List (Sym 
     intro p hp'
     simpa using hσ p hp'
   simp only [xreplace, hp, if_true, this]
-  rw [xreplace_nil v hv]
+  rw [xreplace_nil v hv, xreplaceBinders_nil v hv]
 
 /-! ### 5. witnesses: what the hypotheses exclude really fails -/
 
 def wi : Sym := ⟨"i", []⟩
 def wj : Sym := ⟨"j", []⟩
+def wk : Sym := ⟨"k", []⟩
 def wx : Sym := ⟨"x", []⟩
+def wn : Sym := ⟨"n", []⟩
 /-- `PoolSum(f(i, j), (i, (1, 2)))` -/
-def wBound : Expr := .psum (.app "f:f" [.sym wi, .sym wj]) [(wi, [1, 2])]
+def wBound : Expr := .psum (.app "f:f" [.sym wi, .sym wj]) [(wi, [.rat 1, .rat 2])]
 /-- the pinned tree before 0f745db: bound indices are rewritten -/
 def vUnprotected : Variant := ⟨false, false⟩
 def wI : Interp := fun _ args => args.sum + 1
@@ -178,30 +240,77 @@ example : Expr.beq (subst1 Variant.current wi (.rat 5) wBound) wBound = true := 
 
 /-- `PoolSum(x, (i, (0, 1, 2)))`: `doit` gives `3x`, `cleanup` gives `x` (known finding). -/
 theorem cleanup_changes_value_witness :
-    eval wI (cleanup Variant.current (.psum (.sym wx) [(wi, [0, 1, 2])])) (fun _ => 1)
-      ≠ eval wI (.psum (.sym wx) [(wi, [0, 1, 2])]) (fun _ => 1) := by
+    eval wI (cleanup Variant.current (.psum (.sym wx) [(wi, [.rat 0, .rat 1, .rat 2])])) (fun _ => 1)
+      ≠ eval wI (.psum (.sym wx) [(wi, [.rat 0, .rat 1, .rat 2])]) (fun _ => 1) := by
   decide +kernel
 
 /-- a repeated index symbol (excluded by `Nodup`): `dict(self.indices)` keeps the last pool, so
 `PoolSum(f(i),(i,(1,2)),(i,(3,4)))` evaluates to `f(3)+f(4)`, not to the nested sum. -/
 theorem repeated_index_witness :
-    eval wI (evaluate Variant.current (.psum (.app "f:f" [.sym wi]) [(wi, [1, 2]), (wi, [3, 4])])) (fun _ => 0)
-      ≠ eval wI (.psum (.app "f:f" [.sym wi]) [(wi, [1, 2]), (wi, [3, 4])]) (fun _ => 0) := by
+    eval wI (evaluate Variant.current
+        (.psum (.app "f:f" [.sym wi]) [(wi, [.rat 1, .rat 2]), (wi, [.rat 3, .rat 4])])) (fun _ => 0)
+      ≠ eval wI (.psum (.app "f:f" [.sym wi]) [(wi, [.rat 1, .rat 2]), (wi, [.rat 3, .rat 4])]) (fun _ => 0) := by
   decide +kernel
 
-/-! ### non-vacuity: the hypotheses hold on a nested sum with a shadowed index -/
+/-- a pool value that mentions a LATER index of the same sum (excluded by `wfSums`): `evaluate`
+substitutes sequentially, so `PoolSum(f(i,j),(i,(j,2)),(j,(3,4)))` gives `f(3,3)+…`, which is not
+the sum over the product of the pool values in the environment. -/
+theorem sibling_index_in_pool_witness :
+    eval wI (evaluate Variant.current
+        (.psum (.app "f:f" [.sym wi, .sym wj]) [(wi, [.sym wj, .rat 2]), (wj, [.rat 3, .rat 4])])) (fun _ => 0)
+      ≠ eval wI (.psum (.app "f:f" [.sym wi, .sym wj]) [(wi, [.sym wj, .rat 2]), (wj, [.rat 3, .rat 4])]) (fun _ => 0) := by
+  decide +kernel
+
+/-! ### non-vacuity: the hypotheses hold on nested sums with a shadowed index and symbolic pools -/
 
 /-- `PoolSum(PoolSum(f(i,x), (i,(1,2))) + i*g(j), (i,(3,4,4)), (j,(1/2,)))` -/
 def wNested : Expr :=
-  .psum (.add [.psum (.app "f:f" [.sym wi, .sym wx]) [(wi, [1, 2])],
+  .psum (.add [.psum (.app "f:f" [.sym wi, .sym wx]) [(wi, [.rat 1, .rat 2])],
                .mul [.sym wi, .app "f:g" [.sym wj]]])
-        [(wi, [3, 4, 4]), (wj, [(1 : Q) / 2])]
+        [(wi, [.rat 3, .rat 4, .rat 4]), (wj, [.rat ((1 : Q) / 2)])]
 
 example : Variant.current.sound := by decide
 example : wfSums wNested = true := by decide +kernel
 example : eval wI (doit Variant.current 2 wNested) (fun _ => 7) = eval wI wNested (fun _ => 7) :=
   doit_preserves_value wI _ (by decide) 2 wNested _ (by decide +kernel)
-example : psumDepth (doit Variant.current 2 wNested) = 0 := by decide +kernel
+example : noPsum (doit Variant.current 2 wNested) = true := by decide +kernel
 example : eval wI wNested (fun _ => 7) = 147 / 2 := by decide +kernel
+
+/-- `PoolSum(f(k)*x, (k, (0, 1, n)))`: the symbol `n` occurs in a pool only. -/
+def wPoolOnly : Expr :=
+  .psum (.mul [.app "f:f" [.sym wk], .sym wx]) [(wk, [.rat 0, .rat 1, .sym wn])]
+
+example : wfSums wPoolOnly = true := by decide +kernel
+/-- `n` is a free symbol, `k` is not. -/
+example : free wPoolOnly = [wx, wn] := by decide +kernel
+/-- `.subs(n, 5)` rewrites the pool (it is NOT the identity)… -/
+example :
+    Expr.beq (subst1 Variant.current wn (.rat 5) wPoolOnly)
+      (.psum (.mul [.app "f:f" [.sym wk], .sym wx]) [(wk, [.rat 0, .rat 1, .rat 5])]) = true := by
+  decide +kernel
+/-- …and commutes with evaluation, as terms and as values. -/
+example :
+    evaluate Variant.current (subst1 Variant.current wn (.rat 5) wPoolOnly)
+      = subst1 Variant.current wn (.rat 5) (evaluate Variant.current wPoolOnly) :=
+  subs_free_commutes_with_evaluate _ (by decide) wn _ _ _ (by decide +kernel) (by decide +kernel)
+    (by decide +kernel)
+example : eval wI (subst1 Variant.current wn (.rat 5) wPoolOnly) (fun _ => 2)
+    ≠ eval wI wPoolOnly (fun _ => 2) := by decide +kernel
+
+/-- `PoolSum(PoolSum(g(j), (j, (i, i + 10))), (i, (1, 2)))`: the inner pool mentions the outer
+index, the inner summand does not. -/
+def wDependent : Expr :=
+  .psum (.psum (.app "f:g" [.sym wj]) [(wj, [.sym wi, .add [.sym wi, .rat 10]])])
+        [(wi, [.rat 1, .rat 2])]
+
+example : wfSums wDependent = true := by decide +kernel
+example : free wDependent = [] := by decide +kernel
+/-- `doit()` = `g(1) + g(11) + g(2) + g(12)` -/
+example :
+    eval wI (doit Variant.current 2 wDependent) (fun _ => 0)
+      = eval wI (.add [.app "f:g" [.rat 1], .app "f:g" [.rat 11], .app "f:g" [.rat 2], .app "f:g" [.rat 12]])
+          (fun _ => 0) := by decide +kernel
+example : eval wI (doit Variant.current 2 wDependent) (fun _ => 0) = eval wI wDependent (fun _ => 0) :=
+  doit_preserves_value wI _ (by decide) 2 wDependent _ (by decide +kernel)
 
 end Ampverif.Props.C18
